@@ -14,7 +14,7 @@ use honeycomb_core::cmap::{CMap3, CMapBuilder, DartIdType, OrbitPolicy, SewError
 use honeycomb_core::stm::{Transaction, TransactionClosureResult, atomically_with_err, try_or_coerce};
 
 #[derive(Debug, Clone)]
-enum Call {
+pub enum Call {
     L(u8, u32, u32),
     U(u8, u32),
     S(u8, u32, u32),
@@ -27,7 +27,7 @@ enum Call {
 }
 
 #[derive(Debug, Clone)]
-enum Op {
+pub enum Op {
     AddDart,
     AddDarts(u32),
     InsertDart,
@@ -38,7 +38,7 @@ enum Op {
     Query,
 }
 
-fn call_toks(c: &Call, s: &mut String) {
+pub fn call_toks(c: &Call, s: &mut String) {
     match c {
         Call::L(i, l, r) => write!(s, " {i} {l} {r}"),
         Call::U(i, l) => write!(s, " {} {l}", 3 + i),
@@ -53,11 +53,11 @@ fn call_toks(c: &Call, s: &mut String) {
     .unwrap();
 }
 
-fn fa_tok(fa: &Option<u64>) -> i64 {
+pub fn fa_tok(fa: &Option<u64>) -> i64 {
     fa.map_or(-1, |k| k as i64)
 }
 
-fn op_toks(o: &Op, s: &mut String) {
+pub fn op_toks(o: &Op, s: &mut String) {
     match o {
         Op::AddDart => s.push_str(" 1"),
         Op::AddDarts(k) => write!(s, " 2 {k}").unwrap(),
@@ -78,7 +78,7 @@ fn op_toks(o: &Op, s: &mut String) {
     }
 }
 
-fn call_tx(m: &CMap3<f64>, t: &mut Transaction, c: &Call) -> TransactionClosureResult<(), SewError> {
+pub fn call_tx(m: &CMap3<f64>, t: &mut Transaction, c: &Call) -> TransactionClosureResult<(), SewError> {
     match *c {
         Call::L(1, l, r) => {
             try_or_coerce!(m.link::<1>(t, l, r), SewError);
@@ -145,7 +145,7 @@ fn call_tx(m: &CMap3<f64>, t: &mut Transaction, c: &Call) -> TransactionClosureR
     Ok(())
 }
 
-fn call_force(m: &CMap3<f64>, c: &Call) -> Result<(), SewError> {
+pub fn call_force(m: &CMap3<f64>, c: &Call) -> Result<(), SewError> {
     match *c {
         Call::L(1, l, r) => m.force_link::<1>(l, r).map_err(SewError::from),
         Call::L(2, l, r) => m.force_link::<2>(l, r).map_err(SewError::from),
@@ -163,7 +163,7 @@ fn call_force(m: &CMap3<f64>, c: &Call) -> Result<(), SewError> {
     }
 }
 
-fn exec(m: &mut CMap3<f64>, o: &Op) -> Res {
+pub fn exec(m: &mut CMap3<f64>, o: &Op) -> Res {
     let r = catch_unwind(AssertUnwindSafe(|| match o {
         Op::AddDart => Res::Ok(u64::from(m.add_free_dart())),
         Op::AddDarts(k) => Res::Ok(u64::from(m.add_free_darts(*k as usize))),
@@ -202,7 +202,7 @@ fn exec(m: &mut CMap3<f64>, o: &Op) -> Res {
     r.unwrap_or(Res::Panic)
 }
 
-fn build3(kind: u32, a: u32, b: u32, c: u32, mask: u32) -> CMap3<f64> {
+pub fn build3(kind: u32, a: u32, b: u32, c: u32, mask: u32) -> CMap3<f64> {
     let mut bd = if kind == 0 {
         CMapBuilder::<3, f64>::from_n_darts(a as usize)
     } else {
@@ -227,7 +227,7 @@ fn build3(kind: u32, a: u32, b: u32, c: u32, mask: u32) -> CMap3<f64> {
     bd.build().expect("builder")
 }
 
-fn read_attr3(m: &CMap3<f64>, k: u32, d: DartIdType) -> Option<u32> {
+pub fn read_attr3(m: &CMap3<f64>, k: u32, d: DartIdType) -> Option<u32> {
     match k {
         0 => m.force_read_attribute::<Wt>(d).map(|v| v.0),
         1 => m.force_read_attribute::<Ea>(d).map(|v| v.0),
@@ -236,7 +236,7 @@ fn read_attr3(m: &CMap3<f64>, k: u32, d: DartIdType) -> Option<u32> {
     }
 }
 
-fn dump3(m: &CMap3<f64>, mask: u32, out: &mut String) {
+pub fn dump3(m: &CMap3<f64>, mask: u32, out: &mut String) {
     let n = m.n_darts();
     write!(out, " {mask} {n}").unwrap();
     for d in 0..n as DartIdType {
@@ -265,7 +265,7 @@ fn dump3(m: &CMap3<f64>, mask: u32, out: &mut String) {
     }
 }
 
-fn list_toks(r: std::thread::Result<Vec<u32>>, s: &mut String) {
+pub fn list_toks(r: std::thread::Result<Vec<u32>>, s: &mut String) {
     match r {
         Ok(l) => {
             write!(s, " {}", l.len()).unwrap();
@@ -276,14 +276,14 @@ fn list_toks(r: std::thread::Result<Vec<u32>>, s: &mut String) {
         Err(_) => s.push_str(" -1"),
     }
 }
-fn id_toks(r: std::thread::Result<u32>, s: &mut String) {
+pub fn id_toks(r: std::thread::Result<u32>, s: &mut String) {
     match r {
         Ok(x) => write!(s, " {x}").unwrap(),
         Err(_) => s.push_str(" -1"),
     }
 }
 
-fn query3(m: &CMap3<f64>, s: &mut String) {
+pub fn query3(m: &CMap3<f64>, s: &mut String) {
     static C1: [u8; 2] = [1, 0];
     let n = m.n_darts() as u32;
     write!(s, " {n}").unwrap();
@@ -353,14 +353,14 @@ fn query3(m: &CMap3<f64>, s: &mut String) {
 }
 
 // ------------------------------------------------------------------ generation
-struct View {
+pub struct View {
     n: u32,
     b: Vec<[u32; 4]>,
     unused: Vec<bool>,
 }
 const COORDS: [f64; 7] = [0.0, 1.0, 2.0, -1.0, 0.5, 3.0, 1.5];
 
-fn gen_dart(rng: &mut Rng, v: &View, pred: impl Fn(u32) -> bool, wild: bool) -> u32 {
+pub fn gen_dart(rng: &mut Rng, v: &View, pred: impl Fn(u32) -> bool, wild: bool) -> u32 {
     if wild {
         return rng.below(u64::from(v.n) + 2) as u32;
     }
@@ -373,7 +373,7 @@ fn gen_dart(rng: &mut Rng, v: &View, pred: impl Fn(u32) -> bool, wild: bool) -> 
     }
 }
 
-fn gen_call(rng: &mut Rng, v: &View, mask: u32, wild_pct: u64, sewish: bool) -> Call {
+pub fn gen_call(rng: &mut Rng, v: &View, mask: u32, wild_pct: u64, sewish: bool) -> Call {
     let wild = rng.chance(wild_pct, 100);
     let loose = rng.chance(12, 100);
     let t = |_: u32| true;
@@ -413,7 +413,7 @@ fn gen_call(rng: &mut Rng, v: &View, mask: u32, wild_pct: u64, sewish: bool) -> 
     }
 }
 
-fn gen_op(rng: &mut Rng, m: &CMap3<f64>, mask: u32, wild_pct: u64, fault_pct: u64, sewish: bool) -> Op {
+pub fn gen_op(rng: &mut Rng, m: &CMap3<f64>, mask: u32, wild_pct: u64, fault_pct: u64, sewish: bool) -> Op {
     let v = view_peek(m);
     let fa = if mask != 0 && rng.chance(fault_pct, 100) { Some(rng.below(4)) } else { None };
     match rng.below(100) {
@@ -433,14 +433,14 @@ fn gen_op(rng: &mut Rng, m: &CMap3<f64>, mask: u32, wild_pct: u64, fault_pct: u6
     }
 }
 
-fn view_peek(m: &CMap3<f64>) -> View {
+pub fn view_peek(m: &CMap3<f64>) -> View {
     let n = m.n_darts() as u32;
     let unused = (0..n).map(|d| peek_unused(m, d)).collect();
     View { n, b: (0..n).map(|d| [m.beta::<0>(d), m.beta::<1>(d), m.beta::<2>(d), m.beta::<3>(d)]).collect(), unused }
 }
 /// the removal flag of a dart (CMap3 has no `is_unused`): `remove_free_dart_transac` returns the
 /// previous flag; the transaction is aborted, so nothing is changed
-fn peek_unused(m: &CMap3<f64>, d: u32) -> bool {
+pub fn peek_unused(m: &CMap3<f64>, d: u32) -> bool {
     let r: Result<(), bool> = atomically_with_err(|t| {
         let was = m.remove_free_dart_transac(t, d)?;
         honeycomb_core::stm::abort(was)
@@ -452,21 +452,21 @@ fn peek_unused(m: &CMap3<f64>, d: u32) -> bool {
 // ------------------------------------------------------------------ polyhedral complexes (C05)
 /// a complex of polyhedral cells over shared points; every cell is built on its own darts and
 /// closed with 1- and 2-links, so that coinciding faces of two cells are 3-sewable
-struct Complex {
-    pts: Vec<[f64; 3]>,
+pub struct Complex {
+    pub pts: Vec<[f64; 3]>,
     /// per dart (index = dart id): (cell, origin point, destination point)
-    darts: Vec<(usize, usize, usize)>,
+    pub darts: Vec<(usize, usize, usize)>,
     /// construction ops (links, vertex writes)
-    build: Vec<Op>,
+    pub build: Vec<Op>,
 }
 
-fn sub3(a: [f64; 3], b: [f64; 3]) -> [f64; 3] {
+pub fn sub3(a: [f64; 3], b: [f64; 3]) -> [f64; 3] {
     [a[0] - b[0], a[1] - b[1], a[2] - b[2]]
 }
-fn cross3(a: [f64; 3], b: [f64; 3]) -> [f64; 3] {
+pub fn cross3(a: [f64; 3], b: [f64; 3]) -> [f64; 3] {
     [a[1] * b[2] - a[2] * b[1], a[2] * b[0] - a[0] * b[2], a[0] * b[1] - a[1] * b[0]]
 }
-fn dot3(a: [f64; 3], b: [f64; 3]) -> f64 {
+pub fn dot3(a: [f64; 3], b: [f64; 3]) -> f64 {
     a[0] * b[0] + a[1] * b[1] + a[2] * b[2]
 }
 
@@ -539,11 +539,11 @@ impl Complex {
             vec![b[3], b[0], t[0], t[3]],
         ]);
     }
-    fn n_darts(&self) -> u32 {
+    pub fn n_darts(&self) -> u32 {
         self.darts.len() as u32 - 1
     }
     /// dart pairs of coinciding faces of two different cells (a good 3-sew argument)
-    fn sewable(&self) -> Vec<(u32, u32)> {
+    pub fn sewable(&self) -> Vec<(u32, u32)> {
         let n = self.darts.len() as u32;
         let mut v = Vec::new();
         for l in 1..n {
@@ -559,7 +559,7 @@ impl Complex {
 }
 
 /// the family of small complexes: `which` selects the shape, `m` the number of cells
-fn complex(which: u32, m: u32) -> Complex {
+pub fn complex(which: u32, m: u32) -> Complex {
     // points: 0 = A (0,0,0), 1 = B (0,0,1), 2 = C (0,0,2); ring points at z = 0, 1, 2
     let ring4: [[f64; 2]; 4] = [[1.0, 0.0], [0.0, 1.0], [-1.0, 0.0], [0.0, -1.0]];
     let ring3: [[f64; 2]; 3] = [[1.0, 0.0], [-0.5, 0.75], [-0.5, -0.75]];
@@ -622,7 +622,7 @@ fn complex(which: u32, m: u32) -> Complex {
 }
 
 /// value patterns on a built complex: undefine / perturb some vertices, write attributes at cells
-fn pattern_ops(rng: &mut Rng, m: &CMap3<f64>, mask: u32, n: u32) -> Vec<Op> {
+pub fn pattern_ops(rng: &mut Rng, m: &CMap3<f64>, mask: u32, n: u32) -> Vec<Op> {
     let mut v = Vec::new();
     let k = rng.below(5);
     for _ in 0..k {
@@ -656,7 +656,7 @@ fn pattern_ops(rng: &mut Rng, m: &CMap3<f64>, mask: u32, n: u32) -> Vec<Op> {
 }
 
 /// a sew / unsew mostly aimed at sewable pairs and sewn darts
-fn gen_cell_call(rng: &mut Rng, m: &CMap3<f64>, cx: &Complex) -> Call {
+pub fn gen_cell_call(rng: &mut Rng, m: &CMap3<f64>, cx: &Complex) -> Call {
     let n = cx.n_darts();
     let any = |rng: &mut Rng| 1 + rng.below(u64::from(n)) as u32;
     match rng.below(100) {
@@ -702,13 +702,13 @@ fn gen_cell_call(rng: &mut Rng, m: &CMap3<f64>, cx: &Complex) -> Call {
     }
 }
 
-struct Out {
+pub struct Out {
     cases: std::io::BufWriter<std::fs::File>,
     obs: std::io::BufWriter<std::fs::File>,
     ops: std::io::BufWriter<std::fs::File>,
 }
 
-fn run_case(id: &str, mask: u32, hdr: (u32, u32, u32, u32), ops: &mut dyn FnMut(&CMap3<f64>, usize) -> Option<Op>, out: &mut Out) {
+pub fn run_case(id: &str, mask: u32, hdr: (u32, u32, u32, u32), ops: &mut dyn FnMut(&CMap3<f64>, usize) -> Option<Op>, out: &mut Out) {
     let mut m = build3(hdr.0, hdr.1, hdr.2, hdr.3, mask);
     let mut case = format!("{id} {mask} {} {} {} {}", hdr.0, hdr.1, hdr.2, hdr.3);
     let mut line = String::new();
@@ -749,7 +749,7 @@ fn run_case(id: &str, mask: u32, hdr: (u32, u32, u32, u32), ops: &mut dyn FnMut(
 }
 
 /// two faces on free darts: left = darts 1..=kl, right = darts kl+1..=kl+kr, closed or open
-fn face_ops(kl: u32, kr: u32, lclosed: bool, rclosed: bool, rev_right: bool) -> Vec<Op> {
+pub fn face_ops(kl: u32, kr: u32, lclosed: bool, rclosed: bool, rev_right: bool) -> Vec<Op> {
     let mut v = Vec::new();
     for i in 0..kl - 1 {
         v.push(Op::Force(None, Call::L(1, 1 + i, 2 + i)));
@@ -776,7 +776,7 @@ fn face_ops(kl: u32, kr: u32, lclosed: bool, rclosed: bool, rev_right: bool) -> 
     v
 }
 
-fn main() {
+pub fn main() {
     let args: Vec<String> = std::env::args().collect();
     let get = |name: &str, dflt: &str| -> String {
         args.iter().position(|a| a == name).and_then(|i| args.get(i + 1).cloned()).unwrap_or_else(|| dflt.to_string())
